@@ -122,6 +122,18 @@ def main():
                 if abs(lv[k] / ok - p) > 6 * sd + 1e-3:
                     pred(l, "direct samples are not uniform over the hyperspheroid: fraction with cost below level %d/5 is %.4f, volume ratio is %.4f (6 sigma = %.4f)" % (k + 1, lv[k] / ok, p, 6 * sd))
                     break
+    # (d) several goals: overlapping hyperspheroids; the direct sampler keeps a candidate with probability 1/K so that the union is covered uniformly
+    mlines = ["INFM %d %g %d %d" % (dim, cf, nsamp, rng.randint(1, 10 ** 6)) for dim in (2, 3, 4) for cf in (1.15, 1.4)]
+    rc, o, e, s = vf.sh([drv], input="\n".join(mlines) + "\n", timeout=3000); c.step("impl:informed-multi-goal", drv + " INFM ...", s, rc == 0)
+    for l, out in zip(mlines, o.split("\n")):
+        w = out.split()
+        if w[:1] != ["infm"]: pred(l, "no observation: " + out[:80]); continue
+        ok, both, none, rin, rboth = int(w[3]), int(w[5]), int(w[7]), int(w[9]), int(w[11]); stats["multi_goal_samples"] += ok
+        if none: pred(l, "%d of %d direct samples lie in none of the hyperspheroids (cost not below the bound)" % (none, ok))
+        if ok > 1000 and rin > 1000:
+            p = rboth / rin; sd = math.sqrt(max(p * (1 - p), 1e-9) * (1.0 / ok + 1.0 / rin))
+            if abs(both / ok - p) > 6 * sd + 2e-3:
+                pred(l, "with two goals the region where the hyperspheroids overlap holds %.4f of the informed set but received %.4f of the direct samples (6 sigma = %.4f): states that can still help are under-sampled" % (p, both / ok, 6 * sd))
     c.cov.update({"evaluations": len(script) + len(glines) + stats["samples"], "traces_validated_against_impl": len(script), "distinct_nontrivial": stats["rej_success"] + stats["phs"],
                   "rule": "(a) %d scripted rejection-sampler calls (iteration limits 0..10, one / two bounds, candidates on both sides of the bounds) compared exactly; (b) %d hyperspheroids: dimension 2..10, random / axis-aligned / nearly coincident foci (1e-8 apart), transverse diameter (1+1e-9)..100 x the focal distance, unit vectors on the sphere and inside the ball; (c) direct and rejection samplers on R^2, R^3, R^6, SE(2) with cost bound 1.02..40 x the focal distance, with and without lower bound, %d samples each with the real generator, incl. a 6-sigma level test of uniformity" % (len(script), len(glines), nsamp),
                   "disagreements": ndiff, "predicate_failures": npred, "histogram": dict(stats)})
